@@ -131,6 +131,17 @@ func init() {
 	verifIntrinsics["verifUnicodeIsPrint"] = func(in *Interp, fr *frame, a []Value) Value {
 		return symIntrinsics["unicode.IsPrint"](in, fr, a)
 	}
+	verifIntrinsics["verifNaN"] = func(in *Interp, fr *frame, a []Value) Value { return math.NaN() }
+	verifIntrinsics["verifInf"] = func(in *Interp, fr *frame, a []Value) Value { return math.Inf(1) }
+	verifIntrinsics["verifSignbit"] = func(in *Interp, fr *frame, a []Value) Value {
+		switch x := a[0].(type) {
+		case float64:
+			return math.Signbit(x)
+		case FSym:
+			return simpBool(Eq(Extract(x.T, 63, 63), Const(1, 1)))
+		}
+		panic("verifSignbit")
+	}
 	verifIntrinsics["verifSteps"] = func(in *Interp, _ *frame, a []Value) Value { return int64(in.steps) }
 	verifIntrinsics["verifSymbolic"] = func(in *Interp, _ *frame, a []Value) Value { return true }
 
@@ -365,6 +376,8 @@ func init() {
 		in.ex.Assume(And(bvCmp("bvsle", Const(64, 0), t), bvCmp("bvslt", t, Const(64, uint64(n)))))
 		return t
 	}
+	intrinsics["math/rand.Int63n"] = intrinsics["math/rand.Intn"]
+	intrinsics["math/rand.Int31n"] = intrinsics["math/rand.Intn"]
 	intrinsics["math/rand.Int"] = func(in *Interp, _ *frame, a []Value) Value {
 		t := in.newInput("e", 64)
 		in.ex.Assume(bvCmp("bvsle", Const(64, 0), t))
@@ -634,7 +647,7 @@ func (in *Interp) tryErrorStringV(fr *frame, i Iface) Value {
 		if p, ok := i.V.(*Value); ok && p == nil {
 			return "<nil>"
 		}
-		return in.call(fr, f, []Value{i.V})
+		return in.callForFmt(fr, f, i.V)
 	}
 	return nil
 }
@@ -747,4 +760,23 @@ func (in *Interp) findMethod(T types.Type, name string) *ssa.Function {
 		return nil
 	}
 	return in.prog.MethodValue(sel)
+}
+
+
+// callForFmt calls a String()/Error() method for the purpose of formatting a message; when the
+// method cannot be executed on symbolic data (number formatting) the operand is rendered as a
+// placeholder: message texts are not the subject of any check that feeds them symbolic numbers.
+func (in *Interp) callForFmt(fr *frame, f *ssa.Function, recv Value) (res Value) {
+	depth, stack := in.depth, len(in.stack)
+	defer func() {
+		if r := recover(); r != nil {
+			if a, ok := r.(abortPath); ok && a.kind == "unsupported" {
+				in.depth, in.stack = depth, in.stack[:stack]
+				res = "<sym>"
+				return
+			}
+			panic(r)
+		}
+	}()
+	return in.call(fr, f, []Value{recv})
 }
